@@ -12,7 +12,7 @@ def sh(cmd, **kw):
     return subprocess.run(cmd, shell=True, capture_output=True, text=True, **kw)
 
 def main():
-    d = sys.argv[1].rstrip("/")
+    d = os.path.abspath(sys.argv[1].rstrip("/"))
     props = None
     keep = None
     for i, a in enumerate(sys.argv):
@@ -43,7 +43,8 @@ def main():
         dst = f"/verif/seeded/{keep}"
         os.makedirs(dst, exist_ok=True)
         for f in ("patch.diff", "demo.py"):
-            shutil.copy(f"{d}/{f}", dst)
+            if os.path.realpath(f"{d}/{f}") != os.path.realpath(f"{dst}/{f}"):
+                shutil.copy(f"{d}/{f}", dst)
         meta["verified_here"] = {"demo_with_patch_exit": out["demo_with_patch"], "demo_without_patch_exit": out["demo_without_patch"], "compiles": out["compiles"],
                                  "checks_run": {p: {"exit": v["exit"], "reported": v["fails"][:3] or v["analysis_error"]} for p, v in out["checks"].items()},
                                  "commands": [f"git -C /repo apply seeded/{keep}/patch.diff", f"HS_ROOT=/repo /venv/bin/python seeded/{keep}/demo.py",
